@@ -204,6 +204,14 @@ pub proof fn lemma_updated_min(vw: Seq<R>, k: int, mi: int, mv: R, left: int, ri
 // ================================================================== UpperReversalSignal
 //@extract src/methods/reversal.rs struct:UpperReversalSignal
 //@end
+impl UpperReversalSignal {
+// the inherent three-argument constructor (renamed: Verus resolves `new` in contracts to the trait fn)
+//@extract src/methods/reversal.rs impl[UpperReversalSignal]::new pub rename=new3
+	ensures r is Ok ==> r->Ok_0.inv() && UpperReversalSignal::fresh((left, right), value, &r->Ok_0),
+		(left == 0 || right == 0) ==> r is Err,
+//@replace Method::new((left, right), value) ==> <UpperReversalSignal as Method>::new((left, right), value)
+//@end
+}
 impl Method for UpperReversalSignal {
 	type Params = (PeriodType, PeriodType);
 	type Input = ValueType;
@@ -288,6 +296,14 @@ impl Method for UpperReversalSignal {
 // ================================================================== LowerReversalSignal
 //@extract src/methods/reversal.rs struct:LowerReversalSignal
 //@end
+impl LowerReversalSignal {
+// the inherent three-argument constructor (renamed: Verus resolves `new` in contracts to the trait fn)
+//@extract src/methods/reversal.rs impl[LowerReversalSignal]::new pub rename=new3
+	ensures r is Ok ==> r->Ok_0.inv() && LowerReversalSignal::fresh((left, right), value, &r->Ok_0),
+		(left == 0 || right == 0) ==> r is Err,
+//@replace Method::new((left, right), value) ==> <LowerReversalSignal as Method>::new((left, right), value)
+//@end
+}
 impl Method for LowerReversalSignal {
 	type Params = (PeriodType, PeriodType);
 	type Input = ValueType;
